@@ -18,16 +18,19 @@ SDMap = MapOf(Key, SD)
 TreeMap = MapOf(Key, Tree)
 
 sd = UFn('sd', [Tree], SD, 'to_state_dict on a sub-tree (recursive entry point, uninterpreted)')
-fsd = UFn('fsd', [Tree, SD], Tree, 'from_state_dict(target, state) on a sub-tree (uninterpreted)')
+fsd = UFn('fsd', [Tree, SD, Key], Tree, 'from_state_dict(target, state, name=path_component) on a sub-tree (uninterpreted); the name is what an error below it reports as this level of the path')
 
 
 def _from_state_dict(ex, a, kw):
-  return ex.call_value(fsd, [a[0], a[1]], {})  # the `name=` argument only feeds error messages
+  bound, ok = bind_call(['target', 'state', 'name'], a, kw, defaults={'name': Lit('.')})
+  if not ok:
+    raise OutsideSubset('from_state_dict(target, state, name=...) expected')
+  return ex.call_value(fsd, [bound['target'], bound['state'], bound['name']], {})   # name: the path component used in error messages
 
 
 B = {
   'to_state_dict': sd,
-  'from_state_dict': Handler('from_state_dict', _from_state_dict, 'recursive entry point, uninterpreted; name= only feeds error paths'),
+  'from_state_dict': Handler('from_state_dict', _from_state_dict, 'recursive entry point, uninterpreted; name= is the path component that error messages report'),
   'current_path': Handler('current_path', lambda ex, a, kw: Lit('<path>'), 'error-message text'),
 }
 
@@ -89,11 +92,11 @@ restore_list = function(
   ensures=[
     'len(result) == len(xs)',
     # entry i is restored from the entry stored under key str(i)
-    'forall(Int, lambda i: implies(0 <= i and i < len(xs), result[i] == fsd(xs[i], state_dict[str(i)])))',
+    'forall(Int, lambda i: implies(0 <= i and i < len(xs), result[i] == fsd(xs[i], state_dict[str(i)], str(i))))',
   ],
   invariants={0: [
     'len(ys) == _k',
-    'forall(Int, lambda i: implies(0 <= i and i < _k, ys[i] == fsd(xs[i], state_dict[str(i)])))',
+    'forall(Int, lambda i: implies(0 <= i and i < _k, ys[i] == fsd(xs[i], state_dict[str(i)], str(i))))',
   ]},
   bindings=B, props=('C10',))
 restore_list.str_sort = Key
@@ -117,7 +120,7 @@ restore_dict = function(
   raises={'ValueError': 'exists(StrKey, lambda k: k in xs and not (k in states))'},
   ensures=[
     'dom(result) == dom(xs)',
-    'forall(StrKey, lambda k: implies(k in xs, result[k] == fsd(xs[k], states[k])))',
+    'forall(StrKey, lambda k: implies(k in xs, result[k] == fsd(xs[k], states[k], k)))',
   ],
   bindings=B, props=('C10',))
 restore_dict.str_sort = Key
@@ -126,7 +129,7 @@ restore_dict.locals = {'diff': SetOf(Key)}
 # native readings of the uninterpreted recursive entry points on *leaf* trees (python strings
 # are unregistered leaves: to_state_dict(t) is t, from_state_dict(t, s) is s)
 sd.native = lambda t: t
-fsd.native = lambda t, s: s
+fsd.native = lambda t, s, name: s
 SD.universe = Tree.universe = ['t0', 't1', 't2']
 for _f, _n in ((list_state_dict, '_list_state_dict'), (restore_list, '_restore_list'),
                (dict_state_dict, '_dict_state_dict'), (restore_dict, '_restore_dict')):
@@ -206,7 +209,7 @@ restore_namedtuple = function(
   raises={'ValueError': 'dom(state_dict) != dom(xs.vals)'},
   ensures=['seq_eq(result.fields, xs.fields)',
            'dom(result.vals) == dom(xs.vals)',
-           'forall(StrKey, lambda k: implies(k in xs.vals, result.vals[k] == fsd(xs.vals[k], state_dict[k])))'],
+           'forall(StrKey, lambda k: implies(k in xs.vals, result.vals[k] == fsd(xs.vals[k], state_dict[k], k)))'],
   bindings=B, props=('C10',), native=NH('flax.serialization', '_restore_namedtuple'))
 restore_namedtuple.locals = {'fields': TreeMap, 'sd_keys': SetOf(Key), 'nt_keys': SetOf(Key)}
 
@@ -250,11 +253,11 @@ dc_from_state_dict = function(
   ensures=[
     "result == dataclass_replace(x, ghost('updates'))",
     f"forall(StrKey, lambda k: (k in ghost('updates')) == {IN_FIELDS('k')})",
-    "forall(Int, lambda i: implies(0 <= i and i < len(data_fields), ghost('updates')[data_fields[i]] == fsd(dataclass_field_value(x, data_fields[i]), state[data_fields[i]])))",
+    "forall(Int, lambda i: implies(0 <= i and i < len(data_fields), ghost('updates')[data_fields[i]] == fsd(dataclass_field_value(x, data_fields[i]), state[data_fields[i]], data_fields[i])))",
   ],
   invariants={0: [
     'forall(StrKey, lambda k: (k in updates) == exists(Int, lambda i: 0 <= i and i < _k and data_fields[i] == k))',
-    'forall(Int, lambda i: implies(0 <= i and i < _k, updates[data_fields[i]] == fsd(dataclass_field_value(x, data_fields[i]), old(state)[data_fields[i]])))',
+    'forall(Int, lambda i: implies(0 <= i and i < _k, updates[data_fields[i]] == fsd(dataclass_field_value(x, data_fields[i]), old(state)[data_fields[i]], data_fields[i])))',
     'forall(StrKey, lambda k: (k in state) == (k in old(state) and not exists(Int, lambda i: 0 <= i and i < _k and data_fields[i] == k)))',
     'forall(StrKey, lambda k: implies(k in state, state[k] == old(state)[k]))',
     'forall(Int, lambda i: implies(0 <= i and i < _k, data_fields[i] in old(state)))',
@@ -280,7 +283,7 @@ frozen_state_dict.str_sort = Key
 restore_frozen = function(
   FZ + '::_restore_frozen_dict', params=[('xs', TreeMap), ('states', SDMap)], returns=TreeMap,
   raises={'ValueError': 'exists(StrKey, lambda k: k in xs and not (k in states))'},
-  ensures=['dom(result) == dom(xs)', 'forall(StrKey, lambda k: implies(k in xs, result[k] == fsd(xs[k], states[k])))'],
+  ensures=['dom(result) == dom(xs)', 'forall(StrKey, lambda k: implies(k in xs, result[k] == fsd(xs[k], states[k], k)))'],
   bindings=FB, props=('C10',))
 restore_frozen.str_sort = Key
 restore_frozen.locals = {'diff': SetOf(Key)}
